@@ -65,11 +65,13 @@ mpn_mul (mp_ptr prodp,
    {
     if (up == vp)
     {
+      MPIR_VERIF_HIT (MPIR_VERIF_MUL_SQR);
       mpn_sqr (prodp, up, un);
       return prodp[2 * un - 1];
     }
     else
     {
+      MPIR_VERIF_HIT (MPIR_VERIF_MUL_MUL_N);
       mpn_mul_n (prodp, up, vp, un);
       return prodp[2 * un - 1];
     }
@@ -77,6 +79,7 @@ mpn_mul (mp_ptr prodp,
 
   if (vn < MUL_KARATSUBA_THRESHOLD)
     { /* plain schoolbook multiplication */
+      MPIR_VERIF_HIT (un <= MUL_BASECASE_MAX_UN ? MPIR_VERIF_MUL_BASECASE : MPIR_VERIF_MUL_BASECASE_CHUNKED);
       if (un <= MUL_BASECASE_MAX_UN)
 	mpn_mul_basecase (prodp, up, un, vp, vn);
       else
@@ -142,6 +145,7 @@ mpn_mul (mp_ptr prodp,
   if (ABOVE_THRESHOLD (un + vn, 2*MUL_FFT_FULL_THRESHOLD)
       && ABOVE_THRESHOLD (3*vn, MUL_FFT_FULL_THRESHOLD))
     {
+      MPIR_VERIF_HIT (MPIR_VERIF_MUL_FFT);
       mpn_mul_fft_main (prodp, up, un, vp, vn);
       return prodp[un + vn - 1];
     }
@@ -154,6 +158,7 @@ mpn_mul (mp_ptr prodp,
   if ((ABOVE_THRESHOLD (un + vn, 2*MUL_TOOM8H_THRESHOLD)) && (vn>=86) && (4*un <= 13*vn))
 #endif
   {
+      MPIR_VERIF_HIT (MPIR_VERIF_MUL_TOOM8H);
       mpn_toom8h_mul(prodp, up, un, vp, vn);
       return prodp[un + vn - 1];
   }
@@ -162,6 +167,7 @@ mpn_mul (mp_ptr prodp,
   {
           if (vn > 3*k)
           {
+             MPIR_VERIF_HIT (MPIR_VERIF_MUL_TOOM4);
              mpn_toom4_mul(prodp, up, un, vp, vn);
              return prodp[un + vn - 1];
           } else
@@ -171,6 +177,7 @@ mpn_mul (mp_ptr prodp,
                  || ((vn > 2*l) && (un+vn > 6*MUL_TOOM4_THRESHOLD)))
                  && (vn <= 3*l))
              {
+                MPIR_VERIF_HIT (MPIR_VERIF_MUL_TOOM53);
                 mpn_toom53_mul(prodp, up, un, vp, vn);
                 return prodp[un + vn - 1];
              }
@@ -186,6 +193,7 @@ mpn_mul (mp_ptr prodp,
           if (vn < 2*k) // un/2 >= vn > un/4
           {
                   ws = TMP_ALLOC_LIMBS (MPN_TOOM3_MUL_TSIZE(un));
+                  MPIR_VERIF_HIT (MPIR_VERIF_MUL_TOOM42);
                   mpn_toom42_mul(prodp, up, un, vp, vn, ws);
                   TMP_FREE;
                   return prodp[un + vn - 1];
@@ -195,18 +203,21 @@ mpn_mul (mp_ptr prodp,
           if (vn > 2*l) // un >= vn > 2un/3
           {
                   ws = TMP_ALLOC_LIMBS (MPN_TOOM3_MUL_TSIZE(un));
+                  MPIR_VERIF_HIT (MPIR_VERIF_MUL_TOOM3);
                   mpn_toom3_mul(prodp, up, un, vp, vn, ws);
                   TMP_FREE;
                   return prodp[un + vn - 1];
           } else // 2un/3 >= vn > un/3
           {
                   ws = TMP_ALLOC_LIMBS (MPN_TOOM3_MUL_TSIZE(un));
+                  MPIR_VERIF_HIT (MPIR_VERIF_MUL_TOOM32);
                   mpn_toom32_mul(prodp, up, un, vp, vn, ws);
                   TMP_FREE;
                   return prodp[un + vn - 1];
           }
   }
 
+  MPIR_VERIF_HIT (MPIR_VERIF_MUL_PIECES);
   mpn_mul_n (prodp, up, vp, vn);
 
   if (un != vn)
